@@ -60,6 +60,9 @@ fn c10_strategy_sized(max: usize, nobs: usize, at_max: usize, next_weight: u32) 
         let allowed_after = |op: &SOp| match (&kind, op) {
           (HotKind::Subject, _) => true,
           (HotKind::Behavior(_), SOp::Sub(_)) | (HotKind::Replay, SOp::Sub(_)) => true,
+          // (a producer that goes on after its own terminal: the stored terminal stays what a
+          // new subscriber is handed)
+          (HotKind::Behavior(_), SOp::Next(_)) | (HotKind::Replay, SOp::Next(_)) => true,
           (_, SOp::Unsub(_)) => true,
           _ => false,
         };
@@ -214,7 +217,7 @@ pub fn properties() -> Vec<Property> {
     id: "C10",
     rule: "cases = call histories of length <= 12 (thorough 20) over {subscribe_i, unsubscribe_i, next(v), error, complete} with 3 observers and 3 values on Subject / BehaviorSubject / ReplaySubject / AsyncSubject, observers attached directly or through map; oracle = per-observer traces and the registered-observer count after every call equal the reference state machine; non-trivial = a subscribe after a next, an unsubscribe followed by a next, or any call after a terminal; large: histories of up to 160 calls with 3 observers (reactions at callback positions up to 70) or up to 120 calls with 40 observers, non-trivial = additionally a subscribe after >= 32 items or >= 10 observers",
     assumptions: vec![
-      "after a terminal only calls whose outcome the property fixes are generated (Subject: everything; Behavior/Replay: subscribe, unsubscribe; Async: unsubscribe)",
+      "after a terminal only calls whose outcome the property fixes are generated (Subject: everything; Behavior/Replay: subscribe, unsubscribe, next - ignored, the stored terminal stays what a new subscriber gets; Async: unsubscribe)",
       "observer count read through an accessor appended to the generated copy (verif_observer_count)",
     ],
     subs: vec![
